@@ -633,6 +633,62 @@ theorem keystone_wrap_disjoint (pi lo1 hi1 lo2 hi2 t : K) (hpi : 0 < pi) (ht : -
   rw [keystone_wrap_iff _ _ _ _ ht, keystone_wrap_iff _ _ _ _ ht]
   rintro ⟨(⟨a, b⟩ | ⟨a, b⟩), (⟨c, d⟩ | ⟨c, d⟩)⟩ <;> linarith
 
+/-- where a keystone's arc starts, as translated from the two `while` loops and `hi = lo + arc_rad` of the current source: when
+both loops have stopped `lo ∈ [−π, π]`; each pass moves `lo` by exactly one turn; the second loop cannot undo the first
+(`lo < −π → lo + 2π ≤ π`); `hi` is `lo + arc` and nothing moves `lo` or `hi` afterwards -/
+theorem gen_keystone_start (pi angle lo arc : K) (hpi : 0 < pi) :
+    (¬ Generated.C18.keyLoDownCond pi lo → ¬ Generated.C18.keyLoUpCond pi lo → -pi ≤ lo ∧ lo ≤ pi) ∧
+    Generated.C18.keyLoDownStep pi lo = lo - 2 * pi ∧ Generated.C18.keyLoUpStep pi lo = lo + 2 * pi ∧
+    (Generated.C18.keyLoUpCond pi lo → ¬ Generated.C18.keyLoDownCond pi (Generated.C18.keyLoUpStep pi lo)) ∧
+    Generated.C18.keyHi angle lo arc = lo + arc ∧ Generated.C18.keyHiUntouched = true := by
+  refine ⟨?_, by first | rfl | (simp only [Generated.C18.keyLoDownStep]), by first | rfl | (simp only [Generated.C18.keyLoUpStep]),
+    ?_, by first | rfl | (simp only [Generated.C18.keyHi]), by decide⟩
+  · simp only [Generated.C18.keyLoDownCond, Generated.C18.keyLoUpCond, not_lt, gt_iff_lt]
+    intro a b; exact ⟨b, a⟩
+  · simp only [Generated.C18.keyLoDownCond, Generated.C18.keyLoUpCond, Generated.C18.keyLoUpStep, not_lt, gt_iff_lt]
+    intro a; linarith
+
+/-- COMPLETENESS of the wrap-around logic: with the arc start in `[−π, π]` (what `gen_keystone_start` establishes for every ring
+rotation) and an arc of at most one turn, a sample whose polar angle `t ∈ [−π, π]` lies in the keystone's angular interval after
+ANY whole number `k` of turns is in the mask — together with `keystone_wrap_iff` the mask IS membership modulo `2π` -/
+theorem keystone_wrap_complete (pi lo arc t : K) (k : ℤ) (hpi : 0 < pi) (ht : -pi ≤ t ∧ t ≤ pi) (hlo : -pi ≤ lo ∧ lo ≤ pi)
+    (harc : arc ≤ 2 * pi) (h : lo < t + 2 * pi * k ∧ t + 2 * pi * k < Generated.C18.keyHi lo lo arc) :
+    Generated.C18.keyAng pi lo (Generated.C18.keyHi lo lo arc) t := by
+  have hk : Generated.C18.keyHi lo lo arc = lo + arc := (gen_keystone_start pi lo lo arc hpi).2.2.2.2.1
+  rw [hk] at h ⊢
+  rw [keystone_wrap_iff _ _ _ _ ht]
+  obtain ⟨h1, h2⟩ := h
+  have k0 : (0 : K) ≤ k ∨ (k : K) ≤ -1 := by
+    rcases le_or_gt 0 k with h | h
+    · exact Or.inl (by exact_mod_cast h)
+    · exact Or.inr (by have : k ≤ -1 := by omega
+                       exact_mod_cast this)
+  have k1 : (k : K) ≤ 1 ∨ (2 : K) ≤ k := by
+    rcases le_or_gt k 1 with h | h
+    · exact Or.inl (by exact_mod_cast h)
+    · exact Or.inr (by have : (2 : ℤ) ≤ k := by omega
+                       exact_mod_cast this)
+  rcases k0 with k0 | k0
+  · rcases k1 with k1 | k1
+    · have : (k : K) = 0 ∨ (k : K) = 1 := by
+        have : k = 0 ∨ k = 1 := by
+          have a : (0 : ℤ) ≤ k := by exact_mod_cast k0
+          have b : k ≤ (1 : ℤ) := by exact_mod_cast k1
+          omega
+        rcases this with h | h
+        · exact Or.inl (by exact_mod_cast h)
+        · exact Or.inr (by exact_mod_cast h)
+      rcases this with e | e
+      · rw [e] at h1 h2; exact Or.inl ⟨by linarith, by linarith⟩
+      · rw [e] at h1 h2; exact Or.inr ⟨by linarith, by linarith⟩
+    · nlinarith [ht.1, hlo.2]
+  · nlinarith [ht.2, hlo.1]
+
+/-- non-vacuity of `keystone_wrap_complete`: start `3`, arc `1`, angle `−3` one turn later (`π ≈ 22/7`) -/
+example : (0 : ℚ) < 22 / 7 ∧ (-(22 / 7 : ℚ) ≤ -3 ∧ (-3 : ℚ) ≤ 22 / 7) ∧ (-(22 / 7 : ℚ) ≤ 3 ∧ (3 : ℚ) ≤ 22 / 7) ∧ (1 : ℚ) ≤ 2 * (22 / 7) ∧
+    ((3 : ℚ) < -3 + 2 * (22 / 7) * (1 : ℤ) ∧ (-3 : ℚ) + 2 * (22 / 7) * (1 : ℤ) < Generated.C18.keyHi 3 3 1) := by
+  rw [(gen_keystone_start (22 / 7 : ℚ) 3 3 1 (by norm_num)).2.2.2.2.1]; norm_num
+
 /-- non-vacuity: a keystone straddling the cut (`lo = 3 < π ≈ 22/7 < hi = 4`) owns an angle just below `−π + 1` through the
 wrap-around branch, and its follower `(4, 5)` does not -/
 example : Generated.C18.keyAng (22 / 7 : ℚ) 3 4 (-3) ∧ ¬ Generated.C18.keyAng (22 / 7 : ℚ) 4 5 (-3) := by
